@@ -56,6 +56,11 @@ structure Sink where
   fcalls : Nat := 0
   userRef : Bool := true
   alive : Bool := true
+  -- fault kinds (w2_faults): (call number, kind) for the throwing `write_log` / `flush_sink` calls listed in `wthrow` /
+  -- `fthrow`; kind 0 = std::exception with text (default), 1 = std::exception whose what() is empty, 2 = not a std::exception
+  wkind : List (Nat × Nat) := []
+  fkind : List (Nat × Nat) := []
+  patFails : Bool := false     -- the sink's override pattern cannot be built: `PatternFormatter(...)` throws at first use
   deriving Repr, Inhabited
 
 /-- `BacktraceStorage`: vector + index + capacity -/
@@ -162,6 +167,11 @@ structure BSt where
   popLog : List Stmt := []            -- every event popped by the backend, newest first (global processing order)
   flagLog : List (Nat × Nat) := []    -- (flag, length of `log` when it was raised), newest first
   lastFlush : Nat := 0                -- `_last_sink_flush_time` (read only when `cfg.flushInterval ≠ 0`)
+  -- faults of the read pass (w2_faults; read only by `Backend/Fault.lean`): ids of the statements whose argument is the
+  -- user-defined type with a throwing codec, the decode calls (1-based, of that type) that throw, decode calls so far
+  udt : List Nat := []
+  dthrow : List Nat := []
+  dcalls : Nat := 0
 
 /-! ### small helpers -/
 
